@@ -8,3 +8,7 @@ import buildcheck
 
 for _p in buildcheck.PLANS:
     CHECKS[_p] = buildcheck.run
+import lifecheck
+
+for _p in lifecheck.PLANS:
+    CHECKS[_p] = lifecheck.run
